@@ -170,6 +170,23 @@ ROUND8 = {
 }
 for _k, _v in ROUND8.items():
     ROUND3[_k] = (ROUND3.get(_k, "") + " " + _v).strip()
+ROUND9 = {
+ 'C01': 'Directed key sets (pairs of a 27-key pool, random larger sets) in which the orders by code point, by UTF-16 code unit, by case and by length disagree.',
+ 'C02': 'Unpaired surrogate escapes put into values and member names of a signed object (must not verify), and in objects given to SignJSON; signer name / key ID pairs that are valid UTF-8 only when read together.',
+ 'C03': 'Proto-events with unpaired surrogate escapes in content / unsigned.',
+ 'C04': 'Unpaired surrogate escapes put into content values and member names of a signed event (refused, or redacted).',
+ 'C06': 'VerifyAllEventSignatures on batches holding copies of one event that differ in their signatures, in both orders.',
+ 'C08': "Directed events that name a creator in users (with the level creators have anyway, and others), as the room's first power-levels event and as a later one.",
+ 'C11': 'Rooms whose power levels lie further apart than an int64 difference can express (100, -1, -2^63), three concurrent power-levels events, all six orders of the state sets, 10 repetitions.',
+ 'C12': 'Directed batches in which the second fetcher, asked for one key, volunteers a worse record for a key the first fetcher supplied.',
+ 'C13': 'Request URIs whose percent-escapes decode to bytes that are no UTF-8.',
+ 'C14': 'Responses whose state lists the hash-broken (redacted) copy of an event whose intact copy stands among the auth events - random victims, those whose redacted form is refused, and directed restricted-join rooms.',
+ 'C15': "Inviters on the invited user's own server; a correctly signed decoy create event at the head of the auth chain.",
+ 'C16': 'Two clients with different lists behind one DNS cache, each dialling first in turn.',
+ 'C17': 'One base64 destination decoded into again and again (Decode, Scan, UnmarshalJSON), the empty text included.'
+}
+for _k, _v in ROUND9.items():
+    ROUND3[_k] = (ROUND3.get(_k, "") + " " + _v).strip()
 for _k, _v in ROUND3.items():
     CLAIMS[_k]["note"] = CLAIMS[_k]["note"] + " " + _v
 
